@@ -1,11 +1,11 @@
 #!/bin/bash
-# usage: tools/sweep_seeded.sh <shard> <nshards> <outfile>
+# usage: tools/sweep_seeded.sh <shard> <nshards> <outfile> [glob under seeded/, default *]
 # Runs every seeded change (shard k of n) against the quick check of its property (and of the other
 # properties listed in its meta.json under "also_check") in scratch worktrees; appends "sid<TAB>check<TAB>result".
 cd /verif
-k=$1; n=$2; out=$3
+k=$1; n=$2; out=$3; pat=${4:-*}
 i=0
-for d in seeded/*/; do
+for d in seeded/$pat/; do
   sid=$(basename $d)
   [ -f $d/patch.diff ] || continue
   i=$((i+1)); [ $((i % n)) -eq $k ] || continue
